@@ -247,7 +247,23 @@ def jsd(vc, cfg):
             vc.prove("invariant to normalisation of the inputs", vc.eq(o3.value, d_pq))
     o4 = vc.call(J, p, a * p)
     if vc.returns("proportional-terminates", o4):
-        vc.prove("zero for proportional inputs", vc.eq(o4.value, 0, scale=1.0))
+        if vc.symbolic:
+            # cuts: the call equals the (If-free) spec of (p, a p); there every log argument is the rational function 1, so every
+            # log is 0 (log axiom: t - 1 >= log t >= 1 - 1/t) and the spec is 0; transitivity
+            qa = [a * p[i] / sum(a * p[j] for j in range(k)) for i in range(k)]
+            mp = [(ph[i] + qa[i]) / 2 for i in range(k)]
+            args = [ph[i] / mp[i] for i in range(k)] + [qa[i] / mp[i] for i in range(k)]
+            logs = [vc.log(t_) for t_ in args]
+            spec_pp = (sum(ph[i] * logs[i] for i in range(k)) / log2 + sum(qa[i] * logs[k + i] for i in range(k)) / log2) / 2
+            e4 = vc.lemma("cut:proportional call == spec of (p, a p)", vc.and_(vc.is_defined(o4.value), vc.eq(o4.value, spec_pp)))
+            zs = []
+            for i, (t_, l_) in enumerate(zip(args, logs)):
+                one = vc.lemma(f"cut:log argument {i} == 1", vc.eq(t_, 1))
+                zs.append(vc.prove_from(f"cut:log {i} == 0", vc.eq(l_, 0), [one], [], lemma=True))
+            e5 = vc.prove_from("cut:spec of (p, a p) == 0", vc.eq(spec_pp, 0), zs, logs + ph + qa + [log2], lemma=True)
+            vc.prove_from("zero for proportional inputs", vc.eq(o4.value, 0, scale=1.0), [e4, e5], [o4.value, spec_pp])
+        else:
+            vc.prove("zero for proportional inputs", vc.eq(o4.value, 0, scale=1.0))
     o5 = vc.call(Sim, p, q)
     if vc.returns("similarity-terminates", o5):
         vc.prove("similarity == 1 - divergence", vc.eq(o5.value, 1 - d_pq))
